@@ -433,6 +433,33 @@ CHECKS = {
         design_ref="DESIGN.md 5 C37",
         note=NOTE_COMMON + " Accuracies above 18 need sympy, which the sandbox lacks, and are not exercised. Tolerance 5e-5 on eigenvectors and intensities.",
     ),
+    "C27": dict(
+        text=("Bloch.tla defines 'forbidden by the lattice centering' through the integer lattice sum L(h) = Sum_t (-1)^(2 h.t) over the "
+              "centring translations of P, I, F, A, B, C. BlochImpl.tla transcribes get_reflection_condition (parity formulas) and the "
+              "raveled Miller-index key of the structure-factor lookup; TLC checks on the cube |h| <= 1 (thorough 2) for all six "
+              "centerings: condition == (L(h) # 0), allowed reflections closed under differences, differences inside a table reaching "
+              "twice as far, key injective. Conformance: the real get_reflection_condition on the cube |h| <= 3 per centering, and "
+              "StructureFactor on 10 crystals (Si, Cu, NaCl F; Fe I; Po, CsCl P; orthorhombic A, B, C; orthohexagonal Mg C) x thermal "
+              "sigma x partial occupancy x g_max x lazy (160 scenarios from TLC, quick: one per crystal + 10): BlochTrace.tla decides "
+              "observed condition = lattice sum, F(-h) = conj F(h), every reflection with L(h) = 0 has |F| below tolerance (computed "
+              "with the filter off), the table built with the crystal's centering holds exactly the allowed reflections, a lattice "
+              "translation of all atoms leaves F unchanged, the reconstructed potential is real, lazy == eager."),
+        technique="TLA+ lattice-sum specification of reflection conditions with an implementation-shaped model checked by TLC; TLC trace validation of structure factors of real crystals against the lattice sum",
+        design_ref="DESIGN.md 5 C27",
+        note=NOTE_COMMON + " Periodicity of the reconstructed potential is inherent in the discrete Fourier synthesis and is not separately observed. Tolerance 5e-5 (double precision).",
+    ),
+    "C26": dict(
+        text=("Bloch.tla: the structure matrix A[i][j] = F(h_j - h_i) is Hermitian by F(-h) = conj F(h), hence exp(i pi lambda z A) is "
+              "unitary and intensities sum to one; BlochImpl.tla (shared with C27) checks by TLC the preconditions of the lookup "
+              "(allowed reflections closed under differences, differences inside the doubled table, raveled key injective). "
+              "Conformance: 640 scenarios from TLC (10 crystals x 4 orientations x 2 energies x 2 sg_max x 2 g_max x both Bloch "
+              "equations; quick: one per crystal + 6), thickness list (0, 37, 120, 455.5 A): BlochTrace.tla decides sum of intensities "
+              "= 1 per thickness, zero thickness = direct beam, structure matrix Hermitian, lazy == eager, |S[:, 0]|^2 of the "
+              "matrix-exponential scattering matrix = the eigendecomposition intensities."),
+        technique="TLA+ model of the structure-factor lookup preconditions checked by TLC; TLA+ scenario enumeration and acceptance predicate; TLC trace validation of dynamical diffraction runs",
+        design_ref="DESIGN.md 5 C26",
+        note=NOTE_COMMON + " Known finding C26-tilted-M-matrix: off the zone axis the two paths differ by ~1e-4 and sums deviate by up to 3e-4. Tolerance 5e-5 (double precision).",
+    ),
 }
 
 NOT_APPLICABLE = {
